@@ -20,8 +20,8 @@ typedef Eigen::Index Index;
 static const ld CTOL = 64;
 
 static const char* CLS_NAMES[3] = {"TridiagEigen", "UpperHessenbergSchur", "UpperHessenbergEigen"};
-static const char* PAT_NAMES[10] = {"small_int", "dyadic", "seeded_random", "graded", "zero_subdiagonals", "jordan_like", "companion",
-                                    "zero_or_diagonal", "equal_diagonal_2x2_blocks", "repeated_eigenvalues"};
+static const char* PAT_NAMES[11] = {"small_int", "dyadic", "seeded_random", "graded", "zero_subdiagonals", "jordan_like", "companion",
+                                    "zero_or_diagonal", "equal_diagonal_2x2_blocks", "repeated_eigenvalues", "reducible_small_int_blocks"};
 
 template <typename S>
 struct In
@@ -144,6 +144,31 @@ static In<S> make(vf::Draw& d, vf::Case& c, bool tridiag, int pat, Index n)
                 for (Index j = 0; j < n; j++)
                     for (Index i = 0; i + 1 < j; i++)
                         G(i, j) = g.dy();
+            in.defective_class = true;
+            break;
+        }
+        case 10:  // reducible: [A C; 0 M] with small-integer unreduced Hessenberg blocks. Small integer blocks are where the QR
+                  // iteration stalls long enough to need its exceptional shifts (sweeps 10 and 30) while a leading block is still unprocessed
+        {
+            Index i0 = 0;
+            while (i0 < n)
+            {
+                Index bs = std::min<Index>(n - i0, (Index) d.range("block_size", 1, 5));
+                for (Index j = i0; j < i0 + bs; j++)
+                    for (Index i = i0; i < i0 + bs; i++)
+                        if (tridiag ? (i == j || i == j + 1) : (i <= j + 1))
+                        {
+                            ld v = (ld) d.range("e", -2, 2);
+                            if (i == j + 1 && v == 0)
+                                v = 1;  // keep the block unreduced
+                            G(i, j) = v;
+                        }
+                if (!tridiag)
+                    for (Index j = i0 + bs; j < n; j++)
+                        for (Index i = i0; i < i0 + bs; i++)
+                            G(i, j) = (ld) d.range("c", -2, 2);
+                i0 += bs;
+            }
             in.defective_class = true;
             break;
         }
@@ -515,8 +540,8 @@ static void hesseig_case(vf::Draw& d, vf::Case& c, int pat, Index n)
 template <typename S>
 static void typed(vf::Draw& d, vf::Case& c, int cls)
 {
-    int pat = (int) d.range("pattern", 0, 9);
-    Index nmax = (pat <= 1) ? 12 : (pat == 2 || pat == 3 || pat == 4 ? (Index) vf::options().geti("nmax", 40) : 24);
+    int pat = (int) d.range("pattern", 0, 10);
+    Index nmax = (pat <= 1 || pat == 10) ? 12 : (pat == 2 || pat == 3 || pat == 4 ? (Index) vf::options().geti("nmax", 40) : 24);
     Index n = (Index) d.dim("n", 2, nmax);
     if (cls == 0)
         tridiag_case<S>(d, c, pat, n);
